@@ -22,9 +22,11 @@ MANIFEST = {
             "{0.05, 0.25, 0.5} x smallest cell width x n in {1,2,3,8,64} x position designs {4x4x4 fractional lattice + "
             "low-discrepancy jitter as generated / wrapped into the brick cell / every atom in a different image of "
             "{-2..2}^3; points exactly on and +-1e-4 around multiples of the voxel edge neighborlist.cpp derives for "
-            "that cell and cutoff (voxel boundary numbers {0, ny/2, ny} (thorough +{1, ny-1}) in y and z x 9 edge "
-            "offsets x 2 (5) x-positions incl. 0, cutoff, ax-cutoff, ax) with partner atoms at cutoff*(1-/+2e-3) along "
-            "+-x, +-y, +-z and diagonals, in the cell and pushed to other images; tight clusters at the cell centre and "
+            "that cell and cutoff (complete products boundary number in y x in z x 9 edge offsets x x-positions: n=1 {0,ny} x "
+            "{0,nz} x no offset x {1e-4, ax/2}; n<=3 and every n in quick {0,ny} x {0,nz} x 9 x 2; thorough n=8 {0,ny/2,ny}^2 x "
+            "9 x 2, n=64 {0,1,ny/2,ny-1,ny}^2 x 9 x {1e-4, cutoff, ax/2, ax-cutoff, ax-1e-4}; every base point used once, 8 "
+            "per 64-atom frame) with 7 partner atoms per base point at cutoff*(1-/+2e-3) along "
+            "+-x, +-y, +-z and diagonals, as placed (faces of the cell included), wrapped into the brick cell, and pushed to other images; tight clusters at the cell centre and "
             "across the cell corner, wrapped and un-wrapped, containing one exactly duplicated position} x 2 frames with "
             "different coordinates and cells x query/haystack in {all/all, one/all, disjoint halves, overlapping with "
             "permuted haystack}. For each: compute_neighbors (membership of clearly-inside / clearly-outside atoms, "
